@@ -15,8 +15,8 @@ KT = {
 def e2e(name, kt, n, eps, epsrec, flt='float', tiers=('quick', 'thorough'), timeout=900, unwind=None, extra=None):
     d = dict(KT[kt]); d.update(N=n, NMIN=n, EPS=eps, EPSREC=epsrec, FLT=flt, VERIF_VEC_CAP=n + 4)
     if extra: d.update(extra)
-    return dict(name=name, unit='pgm_e2e.cpp', harness='h_pgm_e2e.c', defs=d, unwind=unwind or max(n + 2, 5), narrow=16 if KT[kt]['KEY_BITS'] == 8 else 0,
-                unwind_rules=[(r'^F__ZN3pgm8PGMIndexI\w+5buildI', 3), (r'basic_string|to_string|strlen|rt_str', 48)], timeout=timeout, tiers=tiers,
+    return dict(name=name, unit='pgm_e2e.cpp', harness='h_pgm_e2e.c', defs=d,  narrow=16 if KT[kt]['KEY_BITS'] == 8 else 0,
+                timeout=timeout, tiers=tiers,
                 bounds='exactly n = %d keys of %s (all values except the reserved maximum), every query value except the reserved one, Epsilon=%d, '
                        'EpsilonRecursive=%d, %s slopes; sequential construction; loops unwound %d times with unwinding assertions'
                        % (n, kt, eps, epsrec, flt, unwind or n + 3))
